@@ -45,6 +45,7 @@ typedef struct ns_cfg {
 	ns_relay relay;
 	int lat_up, lat_down;            /* one-way latency in microseconds */
 	int nclients;
+	int ipv6;                        /* client and server talk over IPv6 (server listens on both families) */
 	int succession;                  /* client A works for a while, dies silently, and client B logs in 65 s later (takes over A's slot and address) */
 	int netmask, check_ip;
 	int warm;                        /* warm-up prefix id */
@@ -387,7 +388,7 @@ static void ns_server_main(void *arg)
 		.mtu = 1130, .check_ip = NC.check_ip, .srand_seed = 7 };
 	s_w_tun_set_ifname("dns0");
 	s_w_init(&c);
-	s_w_run(NS_SRV_TUN, NS_SRV_FD, -1, 0);
+	s_w_run(NS_SRV_TUN, NS_SRV_FD, NC.ipv6 ? NS_SRV_FD + 1 : -1, 0);
 }
 
 static void ns_fill_client_cfg(struct w_client_cfg *c, int which)
@@ -454,8 +455,14 @@ static int ns_boot(const ns_cfg *cfg, int64_t hs_deadline)
 	vw_mkaddr(&ns_cli_addr[1], &ns_alen, "198.51.100.7", 40000);
 	vw_mkaddr(&ns_cli_addr[2], &ns_alen, "198.51.100.8", 40001);
 	ns_srv_sock = vw_sock_open(0, NS_SRV_FD, "192.0.2.1", 53);
+	if (NC.ipv6) {
+		vw_mkaddr6(&ns_srv_addr, &ns_alen, "2001:db8::53", 53);
+		vw_mkaddr6(&ns_cli_addr[1], &ns_alen, "2001:db8:1::7", 40000);
+		vw_mkaddr6(&ns_cli_addr[2], &ns_alen, "2001:db8:1::8", 40001);
+		ns_srv_sock = vw_sock_open6(0, NS_SRV_FD + 1, "2001:db8::53", 53);
+	}
 	ns_srv_tun = vw_tun_open(0, NS_SRV_TUN);
-	ns_cli_sock[1] = vw_sock_open(1, NS_CLI_FD, "198.51.100.7", 40000);
+	ns_cli_sock[1] = NC.ipv6 ? vw_sock_open6(1, NS_CLI_FD, "2001:db8:1::7", 40000) : vw_sock_open(1, NS_CLI_FD, "198.51.100.7", 40000);
 	ns_cli_tun[1] = vw_tun_open(1, NS_CLI_TUN);
 	/* succession: the relay of the configuration is the second client's path; the first client reaches the server directly */
 	ns_relay late_relay = NC.relay;
@@ -481,7 +488,7 @@ static int ns_boot(const ns_cfg *cfg, int64_t hs_deadline)
 		NC.relay = late_relay;
 	}
 	if (NC.nclients > 1) {
-		ns_cli_sock[2] = vw_sock_open(2, NS_CLI_FD + 10, "198.51.100.8", 40001);
+		ns_cli_sock[2] = NC.ipv6 ? vw_sock_open6(2, NS_CLI_FD + 10, "2001:db8:1::8", 40001) : vw_sock_open(2, NS_CLI_FD + 10, "198.51.100.8", 40001);
 		ns_cli_tun[2] = vw_tun_open(2, NS_CLI_TUN + 10);
 		vw_spawn(2, ns_client_b_main, NULL);
 		int64_t dl = W.now + hs_deadline;
